@@ -54,6 +54,23 @@ def flushFront (s : St) : St × Q :=
   | [] => (s, [])
   | (h, x) :: rest => ({ q := rest, pending := s.pending + x }, [(h, x)])
 
+/-- take the buffer of `hop` out of the destination queue -/
+def removeHop (hop : Nat) : Q → Option (Nat × Q)
+  | [] => none
+  | (h, x) :: rest =>
+    if h = hop then some (x, rest)
+    else match removeHop hop rest with
+      | none => none
+      | some (b, q') => some (b, (h, x) :: q')
+
+/-- a flush point puts the buffer of SOME buffered destination on the wire, whole.  Which one comes first is not
+observable by any single destination (each destination is queued at most once), so the model leaves the order of a
+flush point free; `flush_to_capacity` (`flushStep`) stays front-first. -/
+def flushHop (s : St) (hop : Nat) : Option (St × Q) :=
+  match removeHop hop s.q with
+  | none => none
+  | some (x, q') => some ({ q := q', pending := s.pending + x }, [(hop, x)])
+
 /-- one iteration of the `flush_to_capacity` loop: enabled only while more than `cap` bytes are unsent -/
 def flushStep (cap : Nat) (s : St) : Option (St × Q) :=
   if total s.q > cap then some (flushFront s) else none
